@@ -42,7 +42,7 @@ def find_queries():
 @prop('C02')
 def c02():
     return dict(
-        queries=find_queries() + stack_queries(2) + plumb_queries(2, (2, 3, 4, 5)),
+        queries=find_queries() + stack_queries(2) + plumb_queries(2, (2, 3, 4, 5)) + [q for q in seqkern_queries(2) if q['defs']['VF_OP'] == 0 and q['tier'] == 'quick'] + [Q('seqpick_%d' % sc, 'api/seqpick.cpp', 6, tier='thorough' if sc == 5 else 'quick', defs={'VF_SCENE': sc, 'VF_CLAIM': 2}, timeout=1500 if sc == 5 else 900, portfolio=sc >= 5) for sc in (1, 2, 3, 4, 5, 6)],
         level='model_checking',
         level_text='Bounded: the real find<Sig>() selection loop is decided against the C02 selection rule for every match/cost vector of lists up to the stated length.',
         bound='find<Sig>: list length N<=4 (quick) / <=6 (thorough), all 2^N match vectors x all 32-bit cost vectors',
@@ -140,7 +140,7 @@ def c08():
 # ------------------------------------------------------------------------------------------- C04
 @prop('C04')
 def c04():
-    qs = [Q('dtor_order%d' % o, 'C04/dtor.cpp', 10, defs={'VF_ORDER': o, 'VF_CLAIM': 4}, timeout=600) for o in (0, 1, 2, 3)]
+    qs = [Q('dtor_order%d' % o, 'C04/dtor.cpp', 10, defs={'VF_ORDER': o, 'VF_CLAIM': 4}, timeout=600) for o in (0, 1, 2, 3, 4, 5)]
     qs += plumb_queries(4, (10,)) + [q for q in mismatch_queries(4) if q['tier'] == 'quick' and q['defs']['VF_NA'] <= 1]
     return dict(
         queries=qs,
@@ -201,7 +201,7 @@ DEATH_BOUND = 'all legal histories of length <=3 (quick) / <=4 (thorough) over {
 @prop('C13')
 def c13():
     return dict(
-        queries=death_queries(13) + [Q('null_on_move', 'C13/nom.cpp', 3)],
+        queries=death_queries(13) + [Q('null_on_move', 'C13/nom.cpp', 3), Q('seqdeath_K2', 'api/seqdeath.cpp', 6, defs={'VF_K': 2, 'VF_CLAIM': 13}, timeout=900)],
         level='model_checking',
         level_text='Bounded: every short history of requirement creation/release, destruction, copy/move/assignment on a deathwatched object yields exactly the reports and is_satisfied/is_saturated values of the 4-state reference; null_on_move special members for arbitrary pointer values. Histories are configurations (enumerated); memory safety of each is decided by the solver.',
         bound=DEATH_BOUND,
@@ -220,7 +220,7 @@ def c14():
                 qs.append(Q('list_N%d_op%d_pos%d' % (n, op, pos), 'C14/list.cpp', n + 4, tier='quick' if n <= 3 else 'thorough',
                             defs={'VF_N': n, 'VF_OP': op, 'VF_POS': pos}, tv=(n == 3 and pos == 0)))
     return dict(
-        queries=qs + death_queries(14) + [Q('dtor_order%d' % o, 'C04/dtor.cpp', 10, defs={'VF_ORDER': o, 'VF_CLAIM': 14}, timeout=600) for o in (1, 3)] + plumb_queries(14, (10,)),
+        queries=qs + death_queries(14) + [Q('dtor_order%d' % o, 'C04/dtor.cpp', 10, defs={'VF_ORDER': o, 'VF_CLAIM': 14}, timeout=600) for o in (1, 3)] + plumb_queries(14, (10,)) + [Q('seqgone_%d' % v, 'C14/seqgone.cpp', 6, defs={'VF_V': v, 'VF_CLAIM': 14}, sanitize=True) for v in (0, 1, 2)],
         level='model_checking',
         level_text='Bounded: intrusive list primitives keep the ring invariant at every position of rings up to 4; every short destruction/copy/move/assignment history of a deathwatched object and its requirements, and mock-before-expectation destruction, run without touching freed or dead memory (CBMC pointer checks on every dereference of the IR-derived code).',
         bound='list rings n<=3 (4), every position, ops {push, unlink, move-ctor, move-assign, list move, dtor}; ' + DEATH_BOUND,
@@ -259,8 +259,8 @@ def seqstep_queries(nn, quick_only=None):
     qs = []
     quick = [((1, 1, 1), 0, 1), ((1, 1, 1), 0, 2), ((1, 3, 2), 0, 2), ((1, 1, 1), 1, 1), ((1, 0, 1), 0, 2)]
     thorough = [((1, 1, 1), 0, 0), ((1, 1, 1), 1, 0), ((1, 1, 1), 2, 2), ((1, 3, 2), 0, 1), ((3, 3, 3), 0, 2), ((1, 0, 1), 0, 1), ((3, 1, 2), 0, 2)]
-    for mb in ((1, 1, 1), (1, 3, 2), (3, 3, 3), (1, 0, 1), (3, 1, 2), (2, 3, 1), (1, 2, 3), (3, 3, 1)):
-        for gone in (0, 1, 2, 3, 4, 5):
+    for mb in ((1, 1, 1), (1, 3, 2), (3, 3, 3), (1, 0, 1), (3, 1, 2)):
+        for gone in (0, 1, 2, 5):
             for call in (0, 1, 2):
                 if (mb, gone, call) not in quick and (mb, gone, call) not in thorough: thorough.append((mb, gone, call))
     if quick_only is not None:
@@ -272,6 +272,14 @@ def seqstep_queries(nn, quick_only=None):
     return qs
 
 
+def seqdeath2_queries(nn):
+    qs = []
+    for perm in itertools.permutations((1, 2, 3, 4)):
+        qs.append(Q('seqdeath2_%d%d%d%d' % perm, 'api/seqdeath2.cpp', 6, defs={'VF_O1': perm[0], 'VF_O2': perm[1], 'VF_O3': perm[2], 'VF_O4': perm[3], 'VF_CLAIM': nn},
+                    tv=(perm[0] == 2), sanitize=True, timeout=300))
+    return qs
+
+
 SEQSTEP_BOUND = ('api/seqstep: three real expectations f(0),f(1),f(2) each in a subset of two sequences, every retirement pattern in the tier, all 64-bit counters under the '
                  'forward-only invariant, one real call to each of them')
 
@@ -279,7 +287,7 @@ SEQSTEP_BOUND = ('api/seqstep: three real expectations f(0),f(1),f(2) each in a 
 @prop('C05')
 def c05():
     return dict(
-        queries=seqkern_queries(5) + seqstep_queries(5),
+        queries=seqkern_queries(5) + seqstep_queries(5) + [Q('seqpick_7', 'api/seqpick.cpp', 6, tier='thorough', defs={'VF_SCENE': 7, 'VF_CLAIM': 5}, timeout=1800, portfolio=True)] + [Q('seqdeath_K%d' % k, 'api/seqdeath.cpp', 6, defs={'VF_K': k, 'VF_CLAIM': 5}, timeout=900, portfolio=True) for k in (1, 2)] + seqdeath2_queries(5),
         level='model_checking',
         level_text='Bounded/inductive: cost/order/eligibility of real sequence handles equal the reference for every retirement pattern and all counters; one real call from an arbitrary invariant-satisfying state of three sequenced expectations: accepted iff every pending predecessor in every named sequence is satisfied, all predecessors are retired on a match, an ineligible match is exactly one fatal report and changes nothing.',
         bound=SEQKERN_BOUND + '; ' + SEQSTEP_BOUND,
@@ -382,9 +390,9 @@ def mismatch_queries(nn, quick_na=2, quick_ns=1):
 @prop('C15')
 def c15():
     qs = mismatch_queries(15)
-    qs += [Q('dtor_order%d' % o, 'C04/dtor.cpp', 10, defs={'VF_ORDER': o, 'VF_CLAIM': 15}, timeout=600) for o in (0, 1)]
+    qs += [Q('dtor_order%d' % o, 'C04/dtor.cpp', 10, defs={'VF_ORDER': o, 'VF_CLAIM': 15}, timeout=600) for o in (0, 1, 4)]
     qs += [q for q in death_queries(15) if q['tier'] == 'quick' and len(q['name']) <= len('death_multi_12')]
-    qs += seqstep_queries(15, quick_only=3)
+    qs += seqdeath2_queries(15) + seqstep_queries(15, quick_only=2) + [Q('seqdeath_K%d' % k, 'api/seqdeath.cpp', 6, defs={'VF_K': k, 'VF_CLAIM': 15}, timeout=900) for k in (1, 2)]
     return dict(
         queries=qs,
         level='model_checking',
@@ -458,7 +466,7 @@ def c18():
 @prop('C16')
 def c16():
     return dict(
-        queries=stack_queries(16) + plumb_queries(16, (6, 7)) + seqstep_queries(16, quick_only=3),
+        queries=stack_queries(16) + plumb_queries(16, (6, 7)) + seqstep_queries(16, quick_only=2) + [Q('set_reporter', 'C16/setrep.cpp', 6, defs={'VF_CLAIM': 16}, timeout=600)],
         level='model_checking',
         level_text='Bounded: exactly one OK report per accepted call carrying the handling expectation\'s text; none for rejected/forbidden calls.',
         bound=STACK_BOUND,
